@@ -1,16 +1,21 @@
 #!/bin/bash
 # tools/mutcheck.sh Cxx --patch p.diff | --file <path relative to repo root> <mutated copy of that file>  [-- extra ./check args]
-# Evaluates a seeded change WITHOUT touching /repo: under .cache/mut.lock, sync the shared scratch worktree /tmp/mutwt to
-# /repo's HEAD, apply the change there, run `VERIF_REPO_ROOT=/tmp/mutwt ./check Cxx`, revert. Prints the check's output;
-# exit code = the check's exit code (1 = the change was detected).
+# Evaluates a seeded change WITHOUT touching /repo: takes the first free scratch slot (/tmp/mutwt, /tmp/mutwt2, /tmp/mutwt3, /tmp/mutwt4;
+# one lock each), syncs that worktree to /repo's HEAD, applies the change there, runs `VERIF_REPO_ROOT=<slot> ./check Cxx`,
+# reverts. Prints the check's output; exit code = the check's exit code (1 = the change was detected).
 set -u
 PID="$1"; shift
-WT=/tmp/mutwt
 cd /verif
 mkdir -p .cache
-exec 9>.cache/mut.lock
-flock 9
-if [ ! -d "$WT/.git" ] && [ ! -f "$WT/.git" ]; then git -C /repo worktree add --detach "$WT" HEAD >/dev/null 2>&1; fi
+WT=""
+while [ -z "$WT" ]; do
+  for s in mutwt mutwt2 mutwt3 mutwt4; do
+    exec 9>".cache/$s.lock"
+    if flock -n 9; then WT="/tmp/$s"; break; fi
+  done
+  [ -z "$WT" ] && sleep 5
+done
+if [ ! -e "$WT/.git" ]; then git -C /repo worktree prune; git -C /repo worktree add --detach "$WT" HEAD >/dev/null 2>&1; fi
 git -C "$WT" checkout -q -- . ; git -C "$WT" clean -fdq -e target
 git -C "$WT" checkout -q --detach "$(git -C /repo rev-parse HEAD)"
 case "$1" in
@@ -19,7 +24,7 @@ case "$1" in
   *) echo "usage"; exit 2;;
 esac
 [ "${1:-}" = "--" ] && shift
-git -C "$WT" diff --stat | tail -3
+echo "[mutcheck] slot $WT"; git -C "$WT" diff --stat | tail -3
 VERIF_REPO_ROOT="$WT" ./check "$PID" "$@"
 rc=$?
 git -C "$WT" checkout -q -- . ; git -C "$WT" clean -fdq -e target
